@@ -5,45 +5,45 @@ import json
 TECH = "deterministic simulation with fault injection (seeded whole-system simulator, synctest fake clock, simulated network, import-facade seams)"
 
 CHECKS = {
- "C01": ("router family, arm garbage: malformed client input on every listener kind and malformed upstream replies; oracle: child process must not die (panic/fatal = violation with stack), liveness probe per listener after the last garbage input is answered, runs that never quiesce are hangs",
-         "gnet engine is a stub with ported buffer semantics; udp.multi_routes ancillary-data parsing and redis are not reached; QUIC listener not simulated"),
- "C02": ("router family: answers with binary labels, shared suffixes, SRV/SOA/MX/unknown types, compression layouts; client-visible response is decoded by an independent strict codec (refdns) and compared record by record with the regenerated upstream original (names octet-exact, RDATA names decompressed, unknown types byte for byte, TTL on the fresh path, header bits AA/AD/CD/rcode)",
+ "C01": ("router family, arm garbage: malformed client input on every listener kind and malformed upstream replies; oracle: child process must not die (panic/fatal = violation with stack); valid probe queries on fresh transports of every listener (single or bursts of up to 12 with segmented frames) 1.5 s and 10 s after the last garbage input are answered with their own id and question; a run whose SIGQUIT dump shows a goroutine spinning in repository code is a hang; in 40 % of runs the buffer-pool facade lets a detected double release through to the real pool so that its consequences show",
+         "gnet engine is a stub with ported buffer semantics; udp.multi_routes ancillary-data parsing is not reached; redis replies are not byte strings here (client library stubbed)"),
+ "C02": ("router family: answers with binary labels, shared suffixes, SRV/SOA/MX/unknown types, compression layouts; client-visible response is decoded by an independent strict codec (refdns) and compared record by record with the regenerated upstream original (names octet-exact, RDATA names decompressed, unknown types byte for byte, TTL on the fresh path, header bits AA/AD/CD/rcode); a response an independent decoder rejects is a codec failure; arm garbage mixes cut-short upstream answers and malformed queries with the valid traffic; answer shape with names first occurring beyond offset 16383",
          "the comparison base is the harness's own generator + codec; the 'uncompressed encoding has exactly the advertised length' clause is only seen indirectly (cache stores failing)"),
  "C03": ("router family, arms clean/faults: every decodable QR=0 query on udp/tcp/gnet/tls/http/fasthttp/https listeners x upstream outcomes (reply, error rcodes, garbage, FIN/RST, silence, loss/dup on datagram links): exactly one response within 6 s + 1 s, ID/opcode/QR/RA/RD/question, NOTIMP / REFUSED (reference rule evaluation) / SERVFAIL classes",
          "fake upstreams echo the question they received; client links fault-free; limiter off; idle_timeout >= 8 s"),
- "C04": ("router family, high concurrency, yields at lock sites, GC events, tiny/ample/no cache, UDP batches: every record of every response must come from the answer the selected upstream generated for that response's own (token, class, type) and serial (metadata record + upstream log)",
+ "C04": ("router family, high concurrency, yields at lock sites, GC events, tiny/ample/no cache, UDP batches: every record of every response must come from the answer the selected upstream generated for that response's own (token, class, type) and serial (metadata record + upstream log); arm prefetch (background refreshes next to unrelated traffic), arm late (replies after the transports' 6 s I/O limit on connections that are then reused)",
          "interleavings explored at lock boundaries, blocking operations and network events only"),
- "C05": ("transport family over udp / tcp+pipeline / tls+pipeline: concurrent exchanges with deadlines and cancellations; server replies out of order, delayed, duplicated, with wrong wire id, silent; datagram loss/dup; oracle: returned reply was sent on the exchange's own (connection, wire id), caller id restored, no reply returned twice, wire ids never reused per connection; rare arm drives >65536 sequential exchanges through one connection (retire, not wrap)",
+ "C05": ("transport family over udp / tcp+pipeline / tls+pipeline: concurrent exchanges with deadlines and cancellations; server replies out of order, delayed, duplicated, with wrong wire id, silent; datagram loss/dup; oracle: returned reply was sent on the exchange's own (connection, wire id), caller id restored, no reply returned twice, wire ids never reused per connection; rare arm (every 1000th run) drives >65536 exchanges through one connection, the last 300 and the overflow in waves of 24 concurrent callers with lock-site yields (retire, never wrap, also when several callers hold the connection at its end of life)",
          "TLS hides wire ids from the network, the fake server's log is used there"),
  "C06": ("transport family over tcp / tls / TCP leg of udp: callers give up before/during/after the reply, server delays, splits, aborts, idle time-outs 50 ms..10 s, yields and stalls at the transport's lock sites; server-side invariant: no query arrives on a connection with an unanswered earlier query; every returned message is the reply to the caller's own question with its id",
          "server sends exactly one reply per query (precondition of the statement)"),
- "C07": ("router family with memory cache, ip-marker groups, timed repeats of few keys varying case/class/type/client group: a cache hit must be for the same question and group, equal the first relay apart from TTL/ID; converse with ample capacity: no request-path exchange while >2.1 s of the reference lifetime remain",
-         "redis second-level cache not simulated; group attribution of a fetch uses the requests pending at that instant"),
- "C08": ("same family with edge TTL vectors (0, 1, 2^32-1), rcodes, TC answers, max TTL, queries around expiry: sound inequalities on every hit (TTL <= max(1, upstream TTL - whole seconds certainly elapsed)), nothing served after lifetime + 2 s, TC answers never served from cache, a negative answer never displaces a live positive entry",
-         "lifetime policy is the one in the statement; latencies bound the unknown store instant"),
+ "C07": ("router family with memory cache, ip-marker groups, timed repeats of few keys varying case/class/type/client group: a cache hit must be for the same question and group, equal the first relay apart from TTL/ID; converse with ample capacity: no request-path exchange while >2.1 s of the reference lifetime remain; a response with records for another question given without an upstream exchange for the own question is a stored response under the wrong key; arms prefetch and redis (second level on a simulated redis server, small memory cache in half the runs: promotion path)",
+         "redis is reached through a stub of the client library (no RESP framing); group attribution of a fetch uses the requests pending at that instant"),
+ "C08": ("same family with edge TTL vectors (0, 1, 2^32-1), rcodes, TC answers, max TTL, queries around expiry: sound inequalities on every hit (TTL <= max(1, upstream TTL - whole seconds certainly elapsed)), nothing served after lifetime + 2 s, TC answers never served from cache, a negative answer never displaces a live positive entry; arm redis (entries promoted from the second level keep their original expiry)",
+         "redis client library stubbed; lifetime policy is the one in the statement; latencies bound the unknown store instant"),
  "C09": ("router family with answers from 400 bytes to >64 KiB, OPT at any position, clients with advertised sizes 0..65535 and stream/HTTP clients: size limit, strict decode (counts = records present, no trailing bytes), TC iff records omitted, OPT kept, kept records an order-preserving subsequence, nothing omitted when the uncompressed size fits",
          "limit 0 and 'limit without compression' are not reachable through a listener"),
- "C10": ("router family with generated rule lists (reverse, reject, forward, no action, shared domain sets): reference first-match evaluation vs which fake upstream saw the token (never another one, also not by prefetch), forwarded question (one question, lower-cased, same class/type, RD=1), client rcode for reject/refused; arm startfault: unknown/duplicate tags, missing tag/addr must make run() fail and leave nothing open",
-         "the 'unknown key' clause needs the CLI's strict decoder and is checked by starting the real binary (F-cli), see DESIGN.md"),
+ "C10": ("router family with generated rule lists (reverse, reject, forward, no action, shared domain sets): reference first-match evaluation vs which fake upstream saw the token (never another one, also not by prefetch), forwarded question (one question, lower-cased, same class/type, RD=1), client rcode for reject/refused; arm startfault: unknown/duplicate tags, missing tag/addr must make run() fail and leave nothing open; arm cli: the real `router -c <file>` command runs inside the bubble on the YAML rendering of a generated configuration with an unknown key at a seeded mapping node and must exit with the strict decoder's fatal error (control runs without the key must start); every question seen by an upstream must be one some client asked; scheduling points inserted into the rule evaluation and the domain matcher",
+         "the cli arm's rejection verdict is written before the command runs and accepted only together with exit status 1 and the decoder's message on stderr"),
  "C11": ("same runs as C10 with the domain-set generator in front: full:/domain:/bare/regexp: entries, parents/children/duplicates in every order across several files, comments, case; routing outcome must equal the declarative set-based reference",
          "entry files cannot carry every octet (no escapes in the format); regexp entries are generated lower-case"),
- "C12": ("router family: clients with/without OPT, options (cookie, ECS, padding), DO/version bits, odd sizes; upstream replies with OPT and options; ECS on/off; v4, v6, v4-mapped, unknown (abstract unix / header-supplied) client addresses; oracle at the client (OPT iff query had one, no options, TTL field 0, constant size) and at the fake upstream (exactly one OPT, only ECS, exact /24 or /56 prefix of the address the network knows)",
+ "C12": ("router family: clients with/without OPT, options (cookie, ECS, padding), DO/version bits, odd sizes; upstream replies with OPT and options; ECS on/off; v4, v6, v4-mapped, unknown (abstract unix / header-supplied) client addresses; oracle at the client (OPT iff query had one, no options, TTL field 0, constant size) and at the fake upstream (exactly one OPT, only ECS, exact /24 or /56 prefix of the address the network knows); arm overload: refusals made by a listener itself",
          ""),
  "C13": ("router family on tcp/tls/gnet listeners: k=1..40 pipelined frames under seeded segmentation (byte-at-a-time, cuts inside the prefix, coalesced writes), handlers finishing out of order; the client re-parses its inbound byte stream (prefix = body length, every body decodes, id multiset equality); arm overload: burst beyond max_concurrent_queries must be answered REFUSED",
          "gnet engine stub (buffer semantics ported from gnet v2.3.6); TLS records are real"),
- "C14": ("transport family over every simulated upstream kind: refuse / black-hole / silent / half frame / garbage / FIN / RST / partitions / server crash+restart / idle-connection closes, placed by the seed: every ExchangeContext returns by its deadline + 1 s; against a healthy reachable server it succeeds (stale pooled connections are retried); waiters on a reset multiplexed connection leave it within 1 s; dial count bounded",
-         "h3/quic upstreams not simulated (see DESIGN.md)"),
+ "C14": ("transport family over every simulated upstream kind: refuse / black-hole / silent / half frame / garbage / FIN / RST / partitions / server crash+restart / idle-connection closes, placed by the seed: every ExchangeContext returns by its deadline + 1 s; against a healthy reachable server it succeeds (stale pooled connections are retried); waiters on a reset multiplexed connection leave it within 1 s; dial count bounded; a call never returns a message together with an error",
+         "quic-go runs as a patched copy (fake-clock fixes, DESIGN.md 2.2)"),
  "C15": ("arm unit: the exported ClientLimiter driven under the fake clock with generated (address, time, cost) histories and configurations (limit, burst, masks present/omitted/out of range) against a textbook token bucket per subnet as the statement defines it (decisions compared except within 1e-6 tokens of the threshold; bound burst + rate x window on the real decisions); arm e2e: router with limiter, heavy and light subnets on udp/tcp/gnet/tls/http(s): admitted queries per subnet obey the bound, refusals are REFUSED / 503 and never forwarded, a subnet far inside its own budget is never refused",
          "idle-bucket garbage collection (entries dropped after a minute) is part of what the unit arm compares"),
- "C16": ("transport family on udp:// with UDP and TCP fake servers on one address: TC on the UDP reply => TCP server sees the question and the caller gets exactly the TCP outcome; no TC => UDP reply returned, TCP untouched",
+ "C16": ("transport family on udp:// with UDP and TCP fake servers on one address: TC on the UDP reply => TCP server sees the question and the caller gets exactly the TCP outcome; no TC => UDP reply returned, TCP untouched; the TCP server closes idle connections between truncated replies (stale pooled connection on the TCP leg); a message returned together with an error is a violation",
          ""),
- "C17": ("arm addr (fault_enumeration-like: the product scheme x host form x port x dial_addr form, 620 combinations, is covered completely by a batch, 24 consecutive combinations per run): dial target recorded by the network facade and SNI/Host seen by a fake server vs values derived from the structured case; arm auth: 108 combinations of upstream kind x server certificate (good, wrong name, other CA, expired, not yet valid, self-signed) x option (ca, none, skip): success iff the reference predicate, and no query reaches an unauthenticated peer; arm mtls: tls/https listeners with verify_client_cert vs clients with acceptable / foreign / no certificate",
-         "h3/quic upstreams and the QUIC listener are not simulated; certificates use a fixed epoch matching the bubble's clock"),
- "C18": ("arms xclose (Close of every upstream kind at a seeded instant, twice, racing dials/exchanges/idle timers), rclose (router close during traffic), startfault (address in use, bad PEM, unknown protocol/scheme, missing file): Close returns within 2 s fake, later exchanges fail within 1 s, after 150 s grace the simulated network shows no socket owned by the proxy, run() returns an error and leaves nothing open, no panic",
-         "QUIC listener / h3 / quic upstream sockets are not simulated"),
- "C20": ("arms router / xport with yields, stalls, GC events and failing upstreams: (1) every third run uses a -race build of the simulator: a DATA RACE report with a repository frame is a violation; (2) the buffer pool facade poisons on release, quarantines and verifies buffers (write-after-release, double release) and fake upstreams flag the release pattern arriving on the wire (read-after-release)",
+ "C17": ("arm addr (fault_enumeration-like: the product scheme (10, incl. quic and h3) x host form x port x dial_addr form, 800 combinations, is covered completely by a batch, 24 consecutive combinations per run; udp cases get a second exchange with a truncated UDP reply so that the TCP leg's dial target is checked): dial target recorded by the network facade and SNI/Host seen by a fake server vs values derived from the structured case; arm auth: 180 combinations of upstream kind x server certificate (good, wrong name, other CA, expired, not yet valid, self-signed) x option (ca, none, skip): success iff the reference predicate, and no query reaches an unauthenticated peer; arm mtls: tls/https listeners with verify_client_cert vs clients with acceptable / foreign / no certificate",
+         "certificates use a fixed epoch matching the bubble's clock"),
+ "C18": ("arms xclose (Close of every upstream kind at a seeded instant, twice, racing dials/exchanges/idle timers), rclose (router close during traffic), startfault (address in use, bad PEM, unknown protocol/scheme, missing file): Close returns within 1 s fake, later exchanges fail within 1 s, exchanges in flight return within 1 s of Close (not at their own deadline), after 150 s grace the simulated network shows no socket owned by the proxy, run() returns an error and leaves nothing open, no panic",
+         "a QUIC connection whose dial completes after Close is torn down by the upstream closing its quic.Transport; whether QuicTransport itself closes it is not observable through NewUpstream objects (seeded change C18-a)"),
+ "C20": ("arms router / xport / prefetch with yields, stalls, GC events and failing upstreams: (1) a third of the runs of every arm use a -race build of the simulator: a DATA RACE report with a repository frame is a violation; (2) the buffer pool facade poisons on release, quarantines and verifies buffers (write-after-release, double release, aliased hand-out); (3) the object pools of dnsmsg and router (messages, records, questions, request contexts) are a facade that overwrites released objects with recognisable values, detects a second Put and a write while free, and restores them on Get; fake upstreams and the client-side oracle flag either poison pattern on the wire (read-after-release)",
          "race builds randomise scheduling, their replay is best effort; interleavings at lock boundaries / blocking points only"),
- "C19": ("router family, ample cache, lifetimes 4..600 s, bursts of hits in the last quarter from several groups, slow/failing/negative refreshes: hits are answered at once, at most one exchange in flight per (question, group) while the entry is live (for keys whose exchanges all succeed), a completed positive refresh is visible to later hits, the old entry stays usable after a failed refresh",
+ "C19": ("router family, ample cache, lifetimes 4..600 s, bursts of hits in the last quarter from several groups, slow/failing/negative refreshes: hits are answered at once, at most one exchange in flight per (question, group) while the entry is live (for keys whose exchanges all succeed), a completed positive refresh is visible to later hits, the old entry stays usable after a failed refresh; arm prefetch adds unrelated traffic right after the hits",
          "the fake upstream cannot tell a transport-level re-send from a refresh, hence the restriction of the single-flight invariant"),
 }
 
